@@ -1488,6 +1488,11 @@ class Emitter:
                 return ['%s %s = %s;' % (self.ctype(t), name, addr_of(lv))]
             if t.kind == 'array':
                 if init is None: return ['%s %s[%s];' % (self.ctype(t.inner), name, t.name)]
+                i0 = self.strip_wrappers(init)
+                if i0.get('kind') == 'InitListExpr' and (t.inner.name in PRIM_C or self.is_enum(t.inner)):
+                    # array of scalars with a braced list: element-wise, remaining elements zero as in C++
+                    items = [self.Eval(x) for x in i0.get('inner', []) if x.get('kind') != 'ImplicitValueInitExpr']
+                    return ['%s %s[%s] = {%s};' % (self.ctype(t.inner), name, t.name, ', '.join(items) if items else '0')]
                 self.fail(d, 'array with initialiser')
             ct = self.ctype(t)
             if init is None:
